@@ -23,6 +23,8 @@ type consCase struct {
 	Sigs   []int  `json:"sigs"`
 	Pres   []int  `json:"pres"`
 	Garb   []int  `json:"garbage"`
+	Inst   int    `json:"class_member"`           // which member of BIG / NEG (B, N in the term) was instantiated
+	Chain  uint64 `json:"chain_height,omitempty"` // height of the funded state (0: the default, 2)
 	Want   bool   `json:"spec_accepts"`
 	Got    string `json:"real_result"`
 	Real   string `json:"real_policy,omitempty"`
@@ -31,6 +33,7 @@ type consCase struct {
 type lockedOutput struct {
 	term string
 	h, t int
+	inst int
 }
 
 // fundedState is a chain of three blocks whose genesis pays one output to every policy.
@@ -66,6 +69,24 @@ func consEnv(h, t int, height uint64, median time.Time) *env {
 }
 
 func buildFundedState(outs []lockedOutput) (fs *fundedState, err error) {
+	return buildFundedStateAt(outs, 2)
+}
+
+// medianOf is the median the property speaks about: of the timestamps of the last (at most 11)
+// blocks up to the parent state; the midpoint of the middle two if their number is even.
+func medianOf(ts []time.Time) time.Time {
+	ts = append([]time.Time{}, ts...)
+	sort.Slice(ts, func(i, j int) bool { return ts[i].Before(ts[j]) })
+	if len(ts)%2 == 1 {
+		return ts[len(ts)/2]
+	}
+	l, r := ts[len(ts)/2-1], ts[len(ts)/2]
+	return l.Add(r.Sub(l) / 2)
+}
+
+// buildFundedStateAt builds the funded state at the given height. With height = the model
+// height of a row, model heights ARE real heights (0 is 0).
+func buildFundedStateAt(outs []lockedOutput, height uint64) (fs *fundedState, err error) {
 	defer func() {
 		if r := recover(); r != nil {
 			err = fmt.Errorf("building the funded state panicked: %v", r)
@@ -73,8 +94,14 @@ func buildFundedState(outs []lockedOutput) (fs *fundedState, err error) {
 	}()
 	n := testNetwork()
 	t0 := time.Unix(1700000000, 0)
-	const height = 2
-	median := t0.Add(10 * time.Minute) // timestamps t0, t0+10m, t0+20m
+	var stamps []time.Time // timestamps t0, t0+10m, t0+20m, ...
+	for k := uint64(0); k <= height; k++ {
+		stamps = append(stamps, t0.Add(time.Duration(k)*10*time.Minute))
+	}
+	if len(stamps) > 11 {
+		stamps = stamps[len(stamps)-11:]
+	}
+	median := medianOf(stamps)
 	fs = &fundedState{index: map[lockedOutput]int{}, height: height, median: median}
 	var gtxn types.Transaction
 	for i, o := range outs {
@@ -82,7 +109,10 @@ func buildFundedState(outs []lockedOutput) (fs *fundedState, err error) {
 		if err != nil {
 			return nil, err
 		}
-		e := consEnv(o.h, o.t, height, median)
+		e := consEnv(o.h, o.t, height, median).withInst(o.inst)
+		if !e.validInst(node, o.inst) {
+			return nil, fmt.Errorf("class member %d of %s is not valid on the funded state", o.inst, o.term)
+		}
 		p := e.policy(node)
 		fs.pols = append(fs.pols, p)
 		fs.envs = append(fs.envs, e)
@@ -110,7 +140,7 @@ func buildFundedState(outs []lockedOutput) (fs *fundedState, err error) {
 	if found != len(fs.elems) {
 		return nil, fmt.Errorf("genesis created %d of %d outputs", found, len(fs.elems))
 	}
-	for k := 1; k <= height; k++ {
+	for k := 1; k <= int(height); k++ {
 		b := types.Block{ParentID: cs.Index.ID, Timestamp: t0.Add(time.Duration(k) * 10 * time.Minute),
 			MinerPayouts: []types.SiacoinOutput{{Address: types.VoidAddress, Value: cs.BlockReward()}}}
 		cs, au = consensus.ApplyBlock(cs, b, consensus.V1BlockSupplement{}, time.Time{})
@@ -122,10 +152,8 @@ func buildFundedState(outs []lockedOutput) (fs *fundedState, err error) {
 		return nil, fmt.Errorf("funded state has height %d", cs.Index.Height)
 	}
 	// the environment the property speaks about: height of the parent state and the median of its timestamps
-	ts := append([]time.Time{}, cs.PrevTimestamps[:height+1]...)
-	sort.Slice(ts, func(i, j int) bool { return ts[i].Before(ts[j]) })
-	if !ts[len(ts)/2].Equal(median) {
-		return nil, fmt.Errorf("median timestamp of the funded state is %v, expected %v", ts[len(ts)/2], median)
+	if got := medianOf(cs.PrevTimestamps[:len(stamps)]); !got.Equal(median) {
+		return nil, fmt.Errorf("median timestamp of the funded state is %v, expected %v", got, median)
 	}
 	fs.cs = cs
 	return fs, nil
@@ -155,7 +183,13 @@ func (fs *fundedState) spend(i int, sigIDs, preIDs, g []int) (ok bool, errText s
 }
 
 func (cc *consCase) run() (ok bool, errText string, panicked bool, err error) {
-	fs, err := buildFundedState([]lockedOutput{{cc.Policy, cc.H, cc.T}})
+	if cc.Chain == 0 {
+		cc.Chain = 2
+	}
+	if cc.Inst < 0 || cc.Inst >= nInst {
+		return false, "", false, fmt.Errorf("bad class member %d", cc.Inst)
+	}
+	fs, err := buildFundedStateAt([]lockedOutput{{cc.Policy, cc.H, cc.T, cc.Inst}}, cc.Chain)
 	if err != nil {
 		return false, "", false, err
 	}
@@ -176,6 +210,9 @@ func replayConsensus(c *vlib.Ctx, spaces []*space, maxRows int, st *stats, r *ra
 	}
 	var withAcc, without []pick
 	for _, sp := range spaces {
+		if sp.numeric {
+			continue // replayConsensusNum
+		}
 		for ri, row := range sp.rows {
 			for ci, cr := range row.Rows {
 				if len(cr.Acc) > 0 {
@@ -201,7 +238,7 @@ func replayConsensus(c *vlib.Ctx, spaces []*space, maxRows int, st *stats, r *ra
 	for _, p := range picks {
 		row := p.sp.rows[p.ri]
 		mc := p.sp.wit.Ctxs[row.Rows[p.ci].C-1]
-		o := lockedOutput{row.P, mc.H, mc.T}
+		o := lockedOutput{row.P, mc.H, mc.T, 0}
 		if !seen[o] {
 			seen[o] = true
 			outs = append(outs, o)
@@ -287,5 +324,166 @@ func replayConsensus(c *vlib.Ctx, spaces []*space, maxRows int, st *stats, r *ra
 	c.Cov("consensus_rejects", nRej)
 	if c.NViolations() == 0 && (nAcc == 0 || nRej == 0) {
 		c.Infra("vacuity: consensus path saw %d accepted and %d rejected transactions", nAcc, nRej)
+	}
+}
+
+// replayConsensusNum runs rows of the numeric family through ValidateV2Transaction. The funded
+// state is built at the model height of the row, so that heights and counts of the model are the
+// real ones; a row with parameters of a value class is spent once for EVERY member of the class.
+func replayConsensusNum(c *vlib.Ctx, sp *space, maxRows int, st *stats, r *rand.Rand) {
+	type pick struct {
+		ri, ci int
+		node   *node
+		class  bool
+	}
+	var classed, plain []pick
+	for ri, row := range sp.rows {
+		node, err := parseTerm(row.P)
+		if err != nil {
+			c.Infra("consensus path (numeric): %v", err)
+			return
+		}
+		var u classUse
+		node.classes(&u, true)
+		for ci := range row.Rows {
+			if u.any() {
+				classed = append(classed, pick{ri, ci, node, true})
+			} else {
+				plain = append(plain, pick{ri, ci, node, false})
+			}
+		}
+	}
+	r.Shuffle(len(classed), func(i, j int) { classed[i], classed[j] = classed[j], classed[i] })
+	r.Shuffle(len(plain), func(i, j int) { plain[i], plain[j] = plain[j], plain[i] })
+	// unlock conditions and single locks first: they carry the parameters themselves
+	sort.SliceStable(classed, func(i, j int) bool { return (classed[i].node.K != "thresh") && (classed[j].node.K == "thresh") })
+	picks := classed
+	if len(picks) > maxRows*3/4 {
+		picks = picks[:maxRows*3/4]
+	}
+	for i := 0; i < len(plain) && len(picks) < maxRows; i++ {
+		picks = append(picks, plain[i])
+	}
+	type item struct {
+		p   pick
+		out lockedOutput
+	}
+	byHeight := map[int][]item{}
+	for _, p := range picks {
+		row := sp.rows[p.ri]
+		mc := sp.wit.Ctxs[row.Rows[p.ci].C-1]
+		for k := 0; k < nInst; k++ {
+			if !p.class && k > 0 {
+				break
+			}
+			byHeight[mc.H] = append(byHeight[mc.H], item{p, lockedOutput{row.P, mc.H, mc.T, k}})
+		}
+	}
+	var nCases, nAcc, nRej, nRows int64
+	np := len(sp.wit.Pres)
+	nw := len(sp.wit.Sigs) * np
+	heights := []int{}
+	for h := range byHeight {
+		heights = append(heights, h)
+	}
+	sort.Ints(heights)
+	for _, h := range heights {
+		items := byHeight[h]
+		if h < 1 {
+			c.Infra("consensus path (numeric): model height %d", h)
+			return
+		}
+		outs := make([]lockedOutput, len(items))
+		for i, it := range items {
+			outs[i] = it.out
+		}
+		fs, err := buildFundedStateAt(outs, uint64(h))
+		if err != nil {
+			c.Infra("consensus path (numeric): %v", err)
+			return
+		}
+		if ok, txt, _ := fs.spend(fs.control, nil, nil, nil); !ok {
+			c.Infra("consensus path (numeric): the control output cannot be spent at height %d: %s", h, txt)
+			return
+		}
+		for k, it := range items {
+			if c.NViolations() >= 12 {
+				break
+			}
+			row := sp.rows[it.p.ri]
+			cr := row.Rows[it.p.ci]
+			acc := map[int]bool{}
+			try := map[int]bool{0: true}
+			for _, w := range cr.Acc {
+				acc[w] = true
+				try[w] = true
+			}
+			for i := 0; i < 8; i++ {
+				try[r.Intn(nw)] = true
+			}
+			for _, w := range cr.Acc {
+				for i := 0; i < 4; i++ {
+					si, pi := w/np, w%np
+					if r.Intn(2) == 0 {
+						si = r.Intn(len(sp.wit.Sigs))
+					} else {
+						pi = r.Intn(np)
+					}
+					try[si*np+pi] = true
+				}
+			}
+			e := fs.envs[k]
+			var revealed classUse
+			it.p.node.classes(&revealed, false)
+			labels := map[string]bool{}
+			e.numLabels(it.p.node, labels)
+			g := []int{r.Intn(64), r.Intn(64), r.Intn(64), r.Intn(64), r.Intn(64), r.Intn(64)}
+			nRows++
+			for w := range try {
+				cc := consCase{Kind: "consensus", Policy: row.P, H: it.out.h, T: it.out.t, Sigs: sp.wit.Sigs[w/np], Pres: sp.wit.Pres[w%np], Garb: g,
+					Inst: it.out.inst, Chain: uint64(h), Want: acc[w], Real: fs.pols[k].String()}
+				got, errText, pan := fs.spend(k, cc.Sigs, cc.Pres, g)
+				nCases++
+				for l := range labels {
+					bump(st.consNum, l, acc[w], 1) // executed; counted under the verdict of the specification
+				}
+				if got == acc[w] && !pan {
+					if got {
+						nAcc++
+					} else {
+						nRej++
+					}
+					continue
+				}
+				cc.Got = "accepted"
+				dir := "accepts-unsatisfied"
+				if !got {
+					cc.Got, dir = "rejected: "+errText, "rejects-satisfied"
+				}
+				if pan {
+					dir = "panic"
+				}
+				key := "consensus-" + dir + ":" + rootClass(it.p.node)
+				if ck := e.classKey(it.p.node, dir); ck != "" && revealed.any() {
+					key = "num-consensus-" + dir + ":" + ck
+				}
+				c.Violation(key,
+					fmt.Sprintf("ValidateV2Transaction spending an output locked by %s = %s at height %d, median time %d, signatures %v, preimages %v: the specification says %v, the transaction is %s",
+						row.P, cc.Real, it.out.h, it.out.t, cc.Sigs, cc.Pres, map[bool]string{true: "satisfied", false: "not satisfied"}[acc[w]], cc.Got), cc)
+			}
+		}
+	}
+	st.mu.Lock()
+	st.cases += nCases
+	st.accepts += nAcc
+	st.rejects += nRej
+	st.consNumRows += nRows
+	st.mu.Unlock()
+	c.Cov("consensus_numeric_rows", nRows)
+	c.Cov("consensus_numeric_cases", nCases)
+	c.Cov("consensus_numeric_accepts", nAcc)
+	c.Cov("consensus_numeric_rejects", nRej)
+	if c.NViolations() == 0 && (nAcc == 0 || nRej == 0) {
+		c.Infra("vacuity: consensus path (numeric) saw %d accepted and %d rejected transactions", nAcc, nRej)
 	}
 }
